@@ -208,8 +208,8 @@ func implCLI(env *Env, op Op) Result {
 	if op.Name == "cli.run" {
 		// exit status, stdout of generate (nothing else is compared on stdout), the tree
 		so := []byte{}
-		if string(a[1]) == "generate" && c.exit == 0 {
-			so = c.stdout
+		if (string(a[1]) == "generate" && c.exit == 0) || string(a[1]) == "compare" {
+			so = c.stdout // compare: everything it prints, whatever the status
 		}
 		out = append(out, so)
 	}
